@@ -128,8 +128,27 @@ ItemsFrom(js, i, acc) == IF i > Len(js) THEN acc ELSE ItemsFrom(js, i + 1, Appen
 ArgsOk(r) ==
     LET toks == DecodeList(r.toks)
         items == ItemsFrom(r.items, 1, <<>>)
-    IN /\ Chk(<<"classification", r, Classify(toks)>>, items = Classify(toks))
+        want == Classify(toks)
+        NoneItem == Item("none", <<>>)
+        At(k) == IF k <= Len(want) THEN want[k] ELSE NoneItem          \* 1-based
+        origin == Origin(toks)
+    IN /\ Chk(<<"classification", r, want>>, items = want)
        /\ Chk(<<"rejoin", r>>, Rejoin(items) = Flatten(toks))
+       \* the items do not depend on how the iterator is consumed
+       /\ "nth" \in DOMAIN r =>
+            /\ Chk(<<"nth(k) on a fresh iterator", r.nth, want>>,
+                   Len(r.nth) = Len(want) + 1 /\ \A k \in 1..Len(r.nth) : ItemOf(r.nth[k]) = At(k))
+            /\ Chk(<<"skip(k).next()", r.skip, want>>,
+                   Len(r.skip) = Len(want) + 1 /\ \A k \in 1..Len(r.skip) : ItemOf(r.skip[k]) = At(k))
+            /\ Chk(<<"next() then nth(k)", r.next_nth, want>>,
+                   \A k \in 1..Len(r.next_nth) : ItemOf(r.next_nth[k]) = At(k + 1))
+            \* handing the remaining tokens over (into_args): what remains after k items are the tokens after
+            \* the token item k came from, classified on their own (left open once `--` has been consumed)
+            /\ Chk(<<"into_args after k items", r.split, toks>>,
+                   \A k \in 0..Len(want) :
+                      LET upto == IF k = 0 THEN 0 ELSE origin[k]
+                          ddSeen == \E j \in 1..upto : toks[j] = <<DASH, DASH>>
+                      IN ddSeen \/ ItemsFrom(r.split[k + 1], 1, <<>>) = Classify(SubSeq(toks, upto + 1, Len(toks))))
 
 -----------------------------------------------------------------------------
 (* the library's own text utilities on scalar cp between neighbours a, b   *)
